@@ -50,6 +50,8 @@ type modeC struct {
 	nkeys   int
 	lastCTs map[int]uint64 // task id -> commit ts from the txn.committs event
 	closed  bool
+	bgSeq   int
+	bgTasks []*sim.Task
 }
 
 func (m *modeC) next() int { m.seq++; return m.seq }
